@@ -379,6 +379,7 @@ package dataflow
 //@   loop f invariant forall i int :: 0 <= i && i < len(entryPoints) ==> canon(cg, entryPoints[i])
 
 //@ func CallGraphReachable
+//@   loops 3
 //@   property C12
 //@   option append_both
 //@   requires wf: cgwf(cg)
@@ -562,6 +563,7 @@ package dataflow
 // included) is marked as a call-site argument, and every tracking mark created for
 // the results is put on the call's value (one iteration of each loop).
 //@ func IntraAnalysisState.callCommonMark
+//@   loops 5
 //@   property C01 C08
 //@   option havoc:*
 //@   requires state != nil
